@@ -141,10 +141,37 @@ source_get_chunk(Source *source, void *buf, size_t n)
     return (ssize_t)n;
 }
 
+/* At-most flavour of source_adapt(): An error of the driver after some octets
+ * were delivered must not make them vanish. The count moved so far is the
+ * result; the error itself is only returned when nothing was moved (a driver
+ * with a lasting problem reports it again on the next call). */
+static inline ssize_t
+source_adapt_atmost(ByteSource source, void *driver, void *buf, const size_t n)
+{
+    unsigned char *data = buf;
+    size_t rest = n;
+    while (rest > 0) {
+        const int rc = source(driver, data + n - rest);
+        if (rc == -EINTR || rc == -EAGAIN) {
+            continue;
+        } else if (rc < 0) {
+            if (rest < n) {
+                return (ssize_t)(n - rest);
+            }
+            return (ssize_t)rc;
+        }
+        rest -= rc;
+    }
+
+    return n;
+}
+
 ssize_t
 source_get_chunk_atmost(Source *source, void *buf, const size_t n)
 {
-    return once_source_get_chunk(source, buf, n);
+    return source->kind == DATA_KIND_OCTET
+        ? source_adapt_atmost(source->source.octet, source->driver, buf, n)
+        : source->source.chunk(source->driver, buf, n);
 }
 
 static inline ssize_t
@@ -195,10 +222,34 @@ sink_put_chunk(Sink *sink, const void *buf, size_t n)
     return (ssize_t)n;
 }
 
+/* At-most flavour of sink_adapt(), see source_adapt_atmost(). */
+static inline ssize_t
+sink_adapt_atmost(ByteSink sink, void *driver, const void *buf, const size_t n)
+{
+    const unsigned char *data = buf;
+    size_t rest = n;
+    while (rest > 0) {
+        const int rc = sink(driver, data[n - rest]);
+        if (rc == -EINTR || rc == -EAGAIN) {
+            continue;
+        } else if (rc < 0) {
+            if (rest < n) {
+                return (ssize_t)(n - rest);
+            }
+            return (ssize_t)rc;
+        }
+        rest -= rc;
+    }
+
+    return n;
+}
+
 ssize_t
 sink_put_chunk_atmost(Sink *sink, const void *buf, const size_t n)
 {
-    return once_sink_put_chunk(sink, buf, n);
+    return sink->kind == DATA_KIND_OCTET
+        ? sink_adapt_atmost(sink->sink.octet, sink->driver, buf, n)
+        : sink->sink.chunk(sink->driver, buf, n);
 }
 
 static inline bool
